@@ -64,6 +64,7 @@ def obligations(tier, seed=0):
     for m in MANAGERS:
         obs.append((FP + 'restore', dict(ctx='mp', name=m, mode='with')))
         obs.append((FP + 'restore', dict(ctx='mp', name=m, mode='decorated')))
+        obs.append((FP + 'restore', dict(ctx='mp', name=m, mode='reentrant')))
     import mpmath
     from checks.fam_prec import touches
     names = [n for n in entry_points('mp') if n not in MANAGERS]
